@@ -104,10 +104,13 @@ class Report:
                 self.assumptions.append(t)
 
 
+OUT = os.environ.get("PV_OUT_DIR", VERIF)      # scratch runs (mutant self-test) write evidence / replay elsewhere
+
+
 def _write_replay(prop, idx, ob):
-    os.makedirs(os.path.join(VERIF, "replay"), exist_ok=True)
+    os.makedirs(os.path.join(OUT, "replay"), exist_ok=True)
     path = os.path.join("replay", "%s-%d.json" % (prop, idx))
-    with open(os.path.join(VERIF, path), "w") as f:
+    with open(os.path.join(OUT, path), "w") as f:
         json.dump(dict(property=prop, obligation=ob.name, kind=ob.kind, backend=ob.backend,
                        signature=ob.signature, solver_output=ob.detail, witness=ob.witness,
                        replayed_on_real_code=ob.replayed), f, indent=1, default=repr)
@@ -164,7 +167,7 @@ def finish(report, level_if_all_proved="proof"):
     for o in undecided_hard:
         print("UNDECIDED: %s %s" % (o.name, o.detail[:300]))
     # clear stale replay files of this property
-    rdir = os.path.join(VERIF, "replay")
+    rdir = os.path.join(OUT, "replay")
     os.makedirs(rdir, exist_ok=True)
     for fn in os.listdir(rdir):
         if fn.startswith(prop + "-"):
@@ -217,8 +220,8 @@ def finish(report, level_if_all_proved="proof"):
     ev = dict(property_id=prop, tier=report.tier, seed=report.seed, level=level, coverage=cov,
               assumptions=report.assumptions, wall_s=round(time.time() - report.t0, 2),
               violations=len(violations))
-    os.makedirs(os.path.join(VERIF, "evidence"), exist_ok=True)
-    with open(os.path.join(VERIF, "evidence", prop + ".json"), "w") as f:
+    os.makedirs(os.path.join(OUT, "evidence"), exist_ok=True)
+    with open(os.path.join(OUT, "evidence", prop + ".json"), "w") as f:
         json.dump(ev, f, indent=1, default=repr)
     print("%s tier=%s obligations=%d discharged=%d (D/T %d/%d) refuted=%d (known %d) undecided=%d level=%s wall=%.1fs"
           % (prop, report.tier, n, nd, cov["deductive_discharged"], cov["deductive_obligations"],
